@@ -189,7 +189,9 @@ def pokerstars(rec, sb, bb, hand_id=123456789):
 def fulltilt(rec, sb, bb, hand_id=1234567):
     N = rec['names']
     L = [f"Full Tilt Poker Game #{hand_id}: Table Alpha (9 max) -"
-         f" ${money(sb)}/${money(bb)} - No Limit Hold'em - 12:34:56 ET -"
+         f" ${money(sb)}/${money(bb)} - " + (
+             f"${rec['cap']} Cap " if rec.get('cap') else '')
+         + "No Limit Hold'em - 12:34:56 ET -"
          " 2010/01/02"]
     L += _seat_lines(rec, lambda s, nm, st: f'Seat {s}: {nm} (${money(st)})')
     dealt = False
